@@ -294,15 +294,14 @@ Proof.
   intros. unfold qn. rewrite Nat2Z.inj_succ. unfold Z.succ. rewrite inject_Z_plus. ring.
 Qed.
 
-Theorem formula_stage : forall sp n wf d s,
-  dvec_of n sp = Some d ->
+Theorem formula_stage_gen : forall (sp : list (nat * Q)) n wf d s,
+  count_some d = length sp -> qsum (map snd sp) == inject_Z (sum_some d) ->
   oget d s = Some 0%Z ->
   (forall w x, oget d w = Some x -> w <> s -> (0 < x)%Z) ->
   exists cc, get_node_centrality sp n wf = Ok cc /\
              cc == closeness_val n (count_some d) (inject_Z (sum_some d)) wf.
 Proof.
-  intros sp n wf d s Hd Hs Hpos.
-  destruct (dvec_of_props n sp d Hd) as [Hl [Hc Hsum]].
+  intros sp n wf d s Hc Hsum Hs Hpos.
   destruct (sum_one_zero d s Hs Hpos) as [Hnn [Hiff Hone]].
   unfold get_node_centrality, closeness_val.
   set (tot := Qred (qsum (map snd sp))).
@@ -330,6 +329,18 @@ Proof.
     assert (Hr : (count_some d <= 1)%nat). { destruct (Nat.le_gt_cases (count_some d) 1); auto. exfalso. apply Hz. apply Hiff. lia. }
     replace (Nat.leb (count_some d) 1) with true by (symmetry; apply Nat.leb_le; lia).
     reflexivity.
+Qed.
+
+Theorem formula_stage : forall sp n wf d s,
+  dvec_of n sp = Some d ->
+  oget d s = Some 0%Z ->
+  (forall w x, oget d w = Some x -> w <> s -> (0 < x)%Z) ->
+  exists cc, get_node_centrality sp n wf = Ok cc /\
+             cc == closeness_val n (count_some d) (inject_Z (sum_some d)) wf.
+Proof.
+  intros sp n wf d s Hd Hs Hpos.
+  destruct (dvec_of_props n sp d Hd) as [Hl [Hc Hsum]].
+  apply (formula_stage_gen sp n wf d s Hc Hsum Hs Hpos).
 Qed.
 
 (* ------------------------------------------------------------------ the checked closeness value *)
